@@ -2,6 +2,7 @@
   C13 / C15: frame of a whole transaction (`runTrx`, `handleTx`), assembled from the per-body lemmas.
 -/
 import RigoProofs.C13C15Frame
+import RigoProofs.TxRecv
 
 namespace Rigo
 
@@ -147,8 +148,8 @@ theorem runTrx_frame {s : St} {e : Bool} {ht : Int} {tx : TxIn} {rc : Account} {
     · rw [h1]; exact hb
     · rw [h1]; exact hb.trans_frAll (setAcct_frAll _ _ _)
 
-theorem handleTx_frame (s : St) (e : Bool) (ht : Int) (tx : TxIn) : TxFrame tx s (handleTx s e ht tx).1 := by
-  unfold handleTx
+theorem handleTxOld_frame (s : St) (e : Bool) (ht : Int) (tx : TxIn) : TxFrame tx s (handleTxOld s e ht tx).1 := by
+  unfold handleTxOld
   simp only []
   split
   · exact TxFrame.of_frAll (FrAll.refl s)
@@ -166,5 +167,10 @@ theorem handleTx_frame (s : St) (e : Bool) (ht : Int) (tx : TxIn) : TxFrame tx s
       · exact TxFrame.of_frAll h1
       · rename_i hr; exact TxFrame.frAll_trans h1 (runTrx_frame hr)
       · rename_i hr; exact TxFrame.frAll_trans h1 (runTrx_frame hr)
+
+theorem handleTx_frame (s : St) (e : Bool) (ht : Int) (tx : TxIn) : TxFrame tx s (handleTx s e ht tx).1 := by
+  by_cases hl : byteLen tx.to = 20
+  · rw [handleTx_goodlen hl]; exact handleTxOld_frame s e ht tx
+  · rw [handleTx_badlen_fst hl]; exact TxFrame.of_frAll (FrAll.refl s)
 
 end Rigo
